@@ -9,7 +9,13 @@ GUARD = 'CONCEPTS_VERIF'
 
 LEVEL_NOTE = ('Trusted base: the reference model / independent readers in /verif/vlib (self-tested at start-up), '
               'CPython, the third-party packages bitsets and graphviz. No absence claim beyond the enumerated bounds; '
-              'above them coverage is sampled (seeded by VERIF_SEED).')
+              'above them coverage is sampled (seeded by VERIF_SEED). Besides the inputs named here every check runs the '
+              'history / caller / interpreter devices of DESIGN.md 10.2 (other contexts with equal labels, other public calls '
+              'before the checked ones, interleaved iterators, return values and arguments destroyed by the caller, '
+              'concepts whose lattice was dropped, fresh string objects, set / dict / iterator argument forms, odd label '
+              'content, two tasks repeated under python -O) and, where the property is about lattices, structured big cases '
+              'with closed-form answers (chains of 400-520 concepts, Boolean lattices 2**14 .. 2**19, tables of 500-5000 '
+              'objects).')
 
 # id -> (technique, level text, design section)
 CHECKS = {
